@@ -106,11 +106,25 @@ Fixpoint add_range (k : key) (rg : range) (m : list (key * list range)) : list (
 Definition collect_intersections (l : list (key * range)) : list (key * list range) :=
   fold_left (fun m kr => add_range (fst kr) (snd kr) m) l [].
 
-(* DependencyProvider::get_dependencies for Package::Index; None = Err *)
-Definition get_dependencies (idx : index) (k : key) (v : ver) : option (list (key * list range)) :=
+(* pubgrub::Dependencies, or the `?`-propagated error of `index.package` *)
+Inductive deps_result :=
+| DAvailable (ds : list (key * list range))
+| DUnavailable            (* this version can never be part of a solution *)
+| DErr.
+
+(* DependencyProvider::get_dependencies for Package::Index.  A dependency of a version on its own
+   bucket is, for pubgrub, a dependency of a package on itself, which pubgrub 0.3 does not
+   support: the provider resolves it itself (`deps.remove(package)`: the map has at most one
+   entry per package, the model filters).  Either the version meets the requirement itself and
+   the entry is dropped, or the version is unavailable. *)
+Definition get_dependencies (idx : index) (k : key) (v : ver) : deps_result :=
   match deps_of idx (fst k) v with
-  | Some ds => Some (collect_intersections (map dep_key_range ds))
-  | None => None
+  | Some ds =>
+      let m := collect_intersections (map dep_key_range ds) in
+      let self := filter (fun e => key_eqb (fst e) k) m in
+      let others := filter (fun e => negb (key_eqb (fst e) k)) m in
+      if forallb (fun e => ranges_contain (snd e) v) self then DAvailable others else DUnavailable
+  | None => DErr
   end.
 
 (* snapshot_dependencies for the root package (index dependencies only) *)
